@@ -1,7 +1,7 @@
 (* C09 / tables_replay: replaying the output of the operand-table decoder (ToArgs.found_index,
    additional_args) through the encoder (FromArgs.add, to_tuple) gives back every operand
    index and the table, duplicate keys included; characterisation of the overrides. *)
-From Coq Require Import ZArith List Bool Lia ZifyBool FinFun.
+From Coq Require Import ZArith List Bool Lia ZifyBool FinFun Sorted.
 From PCD Require Import Base.PyBase Base.Cfg Model.Flags Model.Args Model.Data Model.LineTable
   Model.Blocks.
 Import ListNotations. Open Scope Z_scope.
@@ -75,6 +75,35 @@ Qed.
 
 Lemma zrange_length n : length (zrange n) = n.
 Proof. unfold zrange. now rewrite map_length, seq_length. Qed.
+
+Lemma NoDup_app_snoc {A} (l : list A) x : NoDup l -> ~ In x l -> NoDup (l ++ [x]).
+Proof.
+  intros Hl Hx. apply NoDup_rev in Hl. rewrite <- (rev_involutive (l ++ [x])).
+  apply NoDup_rev. rewrite rev_app_distr. cbn. constructor; [|exact Hl].
+  now rewrite <- in_rev.
+Qed.
+
+Lemma zrange_sorted n : StronglySorted Z.lt (zrange n).
+Proof.
+  unfold zrange. generalize 0%nat as s. induction n as [|n IH]; intros s; cbn [seq map].
+  - constructor.
+  - constructor; [apply IH|]. apply Forall_forall. intros x Hx.
+    apply in_map_iff in Hx as (k & <- & Hk). apply in_seq in Hk. lia.
+Qed.
+
+Lemma filter_sorted (f : Z -> bool) l : StronglySorted Z.lt l -> StronglySorted Z.lt (filter f l).
+Proof.
+  induction 1 as [|x l Hs IH Hf]; cbn [filter]; [constructor|].
+  destruct (f x); [|exact IH]. constructor; [exact IH|].
+  apply Forall_forall. intros y Hy. apply filter_In in Hy as [Hy _].
+  rewrite Forall_forall in Hf. now apply Hf.
+Qed.
+
+Lemma filter_nil {A} (f : A -> bool) l : (forall x, In x l -> f x = false) -> filter f l = [].
+Proof.
+  induction l as [|x l IH]; intros H; cbn [filter]; [reflexivity|].
+  rewrite (H x) by now left. apply IH. intros y Hy. apply H. now right.
+Qed.
 
 Lemma zrange_S n : zrange (S n) = zrange n ++ [Z.of_nat n].
 Proof. unfold zrange. rewrite seq_S, map_app. reflexivity. Qed.
@@ -335,8 +364,8 @@ Section Replay.
         * intros i ai. rewrite Hmem, Hk. intros Hi Hai.
           destruct (idx =? i) eqn:E.
           -- assert (idx = i) by lia; subst i. left. exists idx.
-             rewrite key_lookup_snoc, Ek. assert (ai = a) by congruence; subst.
-             now rewrite keq_refl.
+             assert (ai = a) by congruence; subst.
+             now rewrite key_lookup_snoc, Ek, keq_refl.
           -- cbn [orb] in Hi. destruct (D_reg _ HD _ _ Hi Hai) as [[f Hf]|Hu]; [|now right].
              left. exists f. now rewrite key_lookup_snoc, Hf.
         * intros i j ai bj. rewrite !Hmem, Hd. intros Hi Hj Hij Hai Hbj Hkk.
@@ -353,6 +382,956 @@ Section Replay.
         * rewrite Hord, zlen_oset, Em. reflexivity.
         * intros k. now rewrite Hd.
         * intros k. rewrite Hd. auto.
+  Qed.
+
+  (* encoder state, relative to the decoder state *)
+  Record EI (ts : toargs T) (fs : fromargs T) : Prop := {
+    E_items : forall i, oget (fa_items fs) i = if omem (ta_order ts) i then val i else None;
+    E_len : zlen (fa_items fs) = zlen (ta_order ts);
+    E_nodup : NoDup (okeys (fa_items fs));
+    E_idx : forall k j, key_lookup keq (fa_index fs) k = Some j ->
+        omem (ta_order ts) j = true /\ exists b, val j = Some b /\ keq k b = true;
+    E_idx1 : forall i a, omem (ta_order ts) i = true -> val i = Some a ->
+        key_mem keq (ta_dups ts) a = false -> key_lookup keq (fa_index fs) a = Some i;
+    E_idx0 : forall i a, omem (ta_order ts) i = true -> val i = Some a ->
+        exists j, key_lookup keq (fa_index fs) a = Some j
+  }.
+
+  Lemma setitem_step ts fs idx a ts1 :
+    DI ts1 -> EI ts fs -> Step ts idx a ts1 ->
+    exists fs1, fa_setitem keq fs idx a = OK fs1 /\ EI ts1 fs1 /\
+      fa_items fs1 = oset (fa_items fs) idx a /\ fa_index fs1 = key_set keq (fa_index fs) a idx.
+  Proof.
+    intros HD1 HE HS. unfold fa_setitem.
+    assert (Hclash : match oget (fa_items fs) idx with
+                     | Some old => negb (keq old a) | None => false end = false).
+    { rewrite (E_items _ _ HE). destruct (omem (ta_order ts) idx); [|reflexivity].
+      rewrite (S_val _ _ _ _ HS), keq_refl. reflexivity. }
+    rewrite Hclash. eexists. split; [reflexivity|]. split; [|split; reflexivity].
+    assert (Hom : omem (fa_items fs) idx = omem (ta_order ts) idx).
+    { unfold omem at 1. rewrite (E_items _ _ HE). destruct (omem (ta_order ts) idx); [|reflexivity].
+      now rewrite (S_val _ _ _ _ HS). }
+    constructor; cbn [fa_items fa_index].
+    - intros i. rewrite oget_oset, (S_mem _ _ _ _ HS), (E_items _ _ HE).
+      destruct (idx =? i) eqn:E; [|reflexivity]. assert (idx = i) by lia; subst i.
+      cbn [orb]. symmetry. apply (S_val _ _ _ _ HS).
+    - rewrite zlen_oset, Hom, (S_len _ _ _ _ HS), (E_len _ _ HE). reflexivity.
+    - rewrite okeys_oset. destruct (omem (fa_items fs) idx) eqn:Eo; [apply (E_nodup _ _ HE)|].
+      apply NoDup_app_snoc; [apply (E_nodup _ _ HE)|].
+      intros Hin. apply omem_In in Hin. congruence.
+    - intros k j. rewrite key_lookup_key_set by assumption. rewrite (S_mem _ _ _ _ HS).
+      destruct (keq k a) eqn:Eka.
+      + intros Hj; inversion Hj; subst j. rewrite Z.eqb_refl. split; [reflexivity|].
+        exists a. split; [apply (S_val _ _ _ _ HS) | exact Eka].
+      + intros Hj. destruct (E_idx _ _ HE _ _ Hj) as (H1 & H2). split; [|exact H2].
+        rewrite H1. apply orb_true_r.
+    - intros i ai Hi Hai Hnd. rewrite key_lookup_key_set by assumption.
+      destruct (keq ai a) eqn:Eka.
+      + destruct (Z.eq_dec i idx) as [->|Hne]; [reflexivity|]. exfalso.
+        assert (Hidx : omem (ta_order ts1) idx = true).
+        { rewrite (S_mem _ _ _ _ HS), Z.eqb_refl. reflexivity. }
+        rewrite (D_dups _ HD1 i idx ai a Hi Hidx Hne Hai (S_val _ _ _ _ HS) Eka) in Hnd.
+        discriminate.
+      + rewrite (S_mem _ _ _ _ HS) in Hi. destruct (idx =? i) eqn:E.
+        * assert (idx = i) by lia; subst i. rewrite (S_val _ _ _ _ HS) in Hai.
+          inversion Hai; subst. rewrite keq_refl in Eka. discriminate.
+        * cbn [orb] in Hi. apply (E_idx1 _ _ HE); auto.
+          destruct (key_mem keq (ta_dups ts) ai) eqn:Ed; [|reflexivity].
+          rewrite (S_dmono _ _ _ _ HS _ Ed) in Hnd. discriminate.
+    - intros i ai Hi Hai. rewrite key_lookup_key_set by assumption.
+      destruct (keq ai a) eqn:Eka; [eauto|].
+      rewrite (S_mem _ _ _ _ HS) in Hi. destruct (idx =? i) eqn:E.
+      + assert (idx = i) by lia; subst i. rewrite (S_val _ _ _ _ HS) in Hai.
+        inversion Hai; subst. rewrite keq_refl in Eka. discriminate.
+      + cbn [orb] in Hi. apply (E_idx0 _ _ HE i); auto.
+  Qed.
+
+  (* the None case on an index that is already found *)
+  Lemma EI_same ts fs ts1 :
+    EI ts fs -> ta_order ts1 = ta_order ts -> ta_dups ts1 = ta_dups ts -> EI ts1 fs.
+  Proof.
+    intros HE Ho Hd. destruct HE. constructor; rewrite ?Ho, ?Hd; auto.
+  Qed.
+
+  (* one decoder step followed by the corresponding encoder step *)
+  Lemma replay_step ts fs idx a ov ts1 :
+    DI ts -> EI ts fs -> 0 <= idx < zlen tbl ->
+    found_index keq ts idx = OK (a, ov, ts1) ->
+    exists fs1, fa_add keq fs a ov = OK (idx, fs1) /\ DI ts1 /\ EI ts1 fs1.
+  Proof.
+    intros HD HE Hr H.
+    destruct (dec_step _ _ _ _ _ HD Hr H) as (HD1 & HS).
+    apply found_index_spec in H. destruct H as (Ha & Hargs & Hord & Hov & Hc).
+    destruct ov as [i|].
+    - (* override *)
+      assert (i = idx).
+      { destruct (_ || _) in Hov; congruence. }
+      subst i. cbn [fa_add].
+      destruct (setitem_step _ _ _ _ _ HD1 HE HS) as (fs1 & -> & HE1 & _). eauto.
+    - (* no override *)
+      destruct (negb _ || _) eqn:Ew in Hov; [discriminate|]. clear Hov.
+      apply orb_false_iff in Ew as [Erank Edup].
+      apply negb_false_iff in Erank.
+      cbn [fa_add].
+      destruct (omem (ta_order ts) idx) eqn:Em.
+      + (* already found: the key still points to idx *)
+        assert (ts1 = ts).
+        { destruct Hc as [[_ ->] | [(Em' & _) | (Em' & _)]]; congruence. }
+        subst ts1.
+        rewrite (E_idx1 _ _ HE idx a Em (S_val _ _ _ _ HS) Edup). eauto.
+      + (* first use: rank = idx and the key is new, so the value is appended at idx *)
+        assert (Hlen : zlen (ta_order ts) = idx).
+        { rewrite Hord, oget_oset, Z.eqb_refl in Erank. lia. }
+        assert (Hnone : key_lookup keq (fa_index fs) a = None).
+        { destruct (key_lookup keq (fa_index fs) a) as [j|] eqn:Ej; [|reflexivity]. exfalso.
+          destruct (E_idx _ _ HE _ _ Ej) as (Hj & b & Hb & Hab).
+          assert (Hne : idx <> j) by (intros ->; congruence).
+          assert (Hidx : omem (ta_order ts1) idx = true).
+          { rewrite (S_mem _ _ _ _ HS), Z.eqb_refl. reflexivity. }
+          assert (Hj1 : omem (ta_order ts1) j = true).
+          { rewrite (S_mem _ _ _ _ HS), Hj. apply orb_true_r. }
+          rewrite (D_dups _ HD1 idx j a b Hidx Hj1 Hne (S_val _ _ _ _ HS) Hb Hab) in Edup.
+          discriminate. }
+        rewrite Hnone, (E_len _ _ HE), Hlen.
+        destruct (setitem_step _ _ _ _ _ HD1 HE HS) as (fs1 & -> & HE1 & _). eauto.
+  Qed.
+
+  Lemma replay_found_all : forall idxs ts fs uses ts',
+    DI ts -> EI ts fs -> Forall (fun i => 0 <= i < zlen tbl) idxs ->
+    found_all ts idxs = OK (uses, ts') ->
+    exists fs', add_all fs uses = OK (idxs, fs') /\ DI ts' /\ EI ts' fs'.
+  Proof.
+    induction idxs as [|i r IH]; intros ts fs uses ts' HD HE HF H; cbn [found_all] in H.
+    - inversion H; subst. cbn [add_all]. eauto.
+    - inversion HF as [|? ? Hi HF']; subst.
+      destruct (found_index keq ts i) as [[[a ov] ts1]|] eqn:Ef; [|discriminate].
+      destruct (found_all ts1 r) as [[l ts2]|] eqn:Er; [|discriminate].
+      inversion H; subst.
+      destruct (replay_step _ _ _ _ _ _ HD HE Hi Ef) as (fs1 & Hadd & HD1 & HE1).
+      destruct (IH _ _ _ _ HD1 HE1 HF' Er) as (fs' & Hall & HD' & HE').
+      cbn [add_all]. rewrite Hadd, Hall. eauto.
+  Qed.
+
+  (* ---------------------------------------------------------------- *)
+  (** ** Initial states *)
+
+  Lemma omem_init q i :
+    omem (ta_order (toargs_init tbl q)) i = (0 <=? i) && (i <? q).
+  Proof.
+    apply eq_true_iff_eq. rewrite omem_In. cbn [toargs_init ta_order]. unfold okeys.
+    rewrite map_map. cbn [fst]. rewrite map_id. fold (zrange (Z.to_nat q)). rewrite in_zrange. lia.
+  Qed.
+
+  Lemma zlen_init q : 0 <= q -> zlen (ta_order (toargs_init tbl q)) = q.
+  Proof.
+    intros H. cbn [toargs_init ta_order]. unfold zlen. rewrite !map_length, seq_length. lia.
+  Qed.
+
+  (* the preset entries have a key that no other entry of the table has *)
+  Definition preset_unique (p : Z) : Prop :=
+    forall i j a b, 0 <= i < p -> 0 <= j < zlen tbl -> j <> i ->
+                    val i = Some a -> val j = Some b -> keq a b = false.
+
+  Lemma DI_init p : 0 <= p <= zlen tbl -> preset_unique p -> DI (toargs_init tbl p).
+  Proof.
+    intros Hp Hu. constructor.
+    - reflexivity.
+    - intros i. rewrite omem_init. lia.
+    - cbn. discriminate.
+    - intros i a. rewrite omem_init. intros Hi Ha. right. intros j b Hj Hne Hb.
+      apply (Hu i j); auto. lia.
+    - intros i j a b. rewrite !omem_init. intros Hi Hj Hne Ha Hb Hk.
+      assert (keq a b = false) by (apply (Hu i j); auto; lia). congruence.
+    - cbn. discriminate.
+  Qed.
+
+  Lemma preset_unique_le p q : q <= p -> preset_unique p -> preset_unique q.
+  Proof. intros Hq Hu i j a b Hi. apply Hu. lia. Qed.
+
+  Lemma EI_empty : EI (toargs_init tbl 0) fromargs_empty.
+  Proof.
+    constructor; cbn; try discriminate; auto using NoDup_nil.
+  Qed.
+
+  Lemma skipn_nth {A} (l : list A) k x :
+    nth_error l k = Some x -> skipn k l = x :: skipn (S k) l.
+  Proof.
+    revert l. induction k as [|k IH]; intros [|y l] H; cbn in H; try discriminate.
+    - inversion H. reflexivity.
+    - cbn [skipn]. rewrite (IH _ H). reflexivity.
+  Qed.
+
+  Lemma EI_preset p : preset_unique p ->
+    forall n q fs, 0 <= q -> q + Z.of_nat n <= p -> p <= zlen tbl ->
+    EI (toargs_init tbl q) fs ->
+    exists fs', set_all (firstn n (skipn (Z.to_nat q) tbl)) q fs = OK fs' /\
+                EI (toargs_init tbl (q + Z.of_nat n)) fs'.
+  Proof.
+    intros Hu. induction n as [|n IH]; intros q fs Hq Hqn Hp HE.
+    - cbn [firstn set_all]. replace (q + Z.of_nat 0) with q by lia. eauto.
+    - destruct (py_index_inrange tbl q) as [a Ha]; [lia|].
+      assert (Hn : nth_error tbl (Z.to_nat q) = Some a) by (rewrite <- py_index_nonneg; auto).
+      rewrite (skipn_nth _ _ _ Hn). cbn [firstn set_all].
+      assert (HS : Step (toargs_init tbl q) q a (toargs_init tbl (q + 1))).
+      { constructor; auto.
+        - intros i. rewrite !omem_init.
+          destruct (q =? i) eqn:E1; destruct (0 <=? i) eqn:E2; destruct (i <? q + 1) eqn:E3;
+            destruct (i <? q) eqn:E4; try reflexivity; lia.
+        - rewrite !zlen_init by lia. rewrite omem_init.
+          destruct (0 <=? q) eqn:E2; destruct (q <? q) eqn:E4; try reflexivity; lia. }
+      assert (HD1 : DI (toargs_init tbl (q + 1))).
+      { apply DI_init; [lia|]. eapply preset_unique_le; [|exact Hu]. lia. }
+      destruct (setitem_step _ _ _ _ _ HD1 HE HS) as (fs1 & -> & HE1 & _).
+      replace (Z.to_nat q + 1)%nat with (Z.to_nat (q + 1)) by lia.
+      replace (S (Z.to_nat q)) with (Z.to_nat (q + 1)) by lia.
+      destruct (IH (q + 1) fs1) as (fs' & Hs & HE'); auto; try lia.
+      exists fs'. split; [exact Hs|]. replace (q + Z.of_nat (S n)) with (q + 1 + Z.of_nat n) by lia.
+      exact HE'.
+  Qed.
+
+  Lemma EI_preset0 p : 0 <= p <= zlen tbl -> preset_unique p ->
+    exists fs0, set_all (take p tbl) 0 fromargs_empty = OK fs0 /\ EI (toargs_init tbl p) fs0.
+  Proof.
+    intros Hp Hu. destruct (EI_preset p Hu (Z.to_nat p) 0 fromargs_empty) as (fs0 & Hs & HE);
+      try lia; [apply EI_empty|].
+    exists fs0. split.
+    - exact Hs.
+    - replace (0 + Z.of_nat (Z.to_nat p)) with p in HE by lia. exact HE.
+  Qed.
+
+  (* ---------------------------------------------------------------- *)
+  (** ** additional_args is found_all on the indices that are not found *)
+
+  Definition missing (ts : toargs T) (l : list Z) : list Z :=
+    filter (fun i => negb (omem (ta_order ts) i)) l.
+
+  Lemma additional_args_from_found_all : forall l ts, NoDup l ->
+    additional_args_from keq ts l =
+    match found_all ts (missing ts l) with OK (adds, _) => OK adds | Err e => Err e end.
+  Proof.
+    induction l as [|i r IH]; intros ts Hnd; cbn [additional_args_from missing filter found_all].
+    - reflexivity.
+    - inversion Hnd as [|? ? Hni Hnd']; subst. fold (missing ts r).
+      destruct (omem (ta_order ts) i) eqn:Em; cbn [negb].
+      + apply IH; auto.
+      + cbn [found_all].
+        destruct (found_index keq ts i) as [[[a ov] ts1]|] eqn:Ef; [|reflexivity].
+        rewrite IH by auto.
+        assert (Hm : missing ts1 r = missing ts r).
+        { unfold missing. apply filter_ext_in. intros j Hj.
+          apply found_index_spec in Ef. destruct Ef as (_ & _ & Hord & _). rewrite Em in Hord.
+          rewrite Hord, omem_oset. destruct (i =? j) eqn:E; [|reflexivity].
+          assert (i = j) by lia. subst. contradiction. }
+        rewrite Hm. destruct (found_all ts1 (missing ts r)) as [[l' ts2]|]; reflexivity.
+  Qed.
+
+  Lemma found_all_mem : forall l ts u ts', found_all ts l = OK (u, ts') ->
+    forall i, omem (ta_order ts') i = true <-> (omem (ta_order ts) i = true \/ In i l).
+  Proof.
+    induction l as [|j r IH]; intros ts u ts' H i; cbn [found_all] in H.
+    - inversion H; subst. cbn [In]. tauto.
+    - destruct (found_index keq ts j) as [[[a ov] ts1]|] eqn:Ef; [|discriminate].
+      destruct (found_all ts1 r) as [[l' ts2]|] eqn:Er; [|discriminate].
+      inversion H; subst. rewrite (IH _ _ _ Er i).
+      apply found_index_spec in Ef. destruct Ef as (_ & _ & Hord & _).
+      rewrite Hord. cbn [In]. destruct (omem (ta_order ts) j) eqn:Em.
+      + split; [tauto|]. intros [H1|[H1|H1]]; auto. subst. auto.
+      + rewrite omem_oset, orb_true_iff. split.
+        * intros [[H1|H1]|H1]; auto. right. left. lia.
+        * intros [H1|[H1|H1]]; auto. left. left. lia.
+  Qed.
+
+  Lemma found_all_ok : forall l ts, ta_args ts = tbl ->
+    Forall (fun i => 0 <= i < zlen tbl) l -> exists r, found_all ts l = OK r.
+  Proof.
+    induction l as [|i r IH]; intros ts Ha HF; cbn [found_all]; [eauto|].
+    inversion_clear HF as [|? ? Hi HF'].
+    destruct (found_index_ok ts i) as [[[a ov] ts1] Hf].
+    { rewrite Ha. now apply py_index_inrange. }
+    rewrite Hf. apply found_index_spec in Hf. destruct Hf as (_ & Hargs & _).
+    destruct (IH ts1) as [[l' ts2] Hr]; [congruence | auto |]. rewrite Hr. eauto.
+  Qed.
+
+  (* ---------------------------------------------------------------- *)
+  (** ** to_tuple *)
+
+  Lemma collect_spec (d : odict T) : forall l i,
+    (forall k a, nth_error l k = Some a -> oget d (i + Z.of_nat k) = Some a) ->
+    collect d (length l) i = Some l.
+  Proof.
+    induction l as [|x l IH]; intros i H; cbn [length collect]; [reflexivity|].
+    assert (H0 := H O x eq_refl). replace (i + Z.of_nat 0) with i in H0 by lia. rewrite H0.
+    rewrite IH; [reflexivity|].
+    intros k a Hk. replace (i + 1 + Z.of_nat k) with (i + Z.of_nat (S k)) by lia. now apply H.
+  Qed.
+
+  Lemma to_tuple_full ts fs :
+    DI ts -> EI ts fs -> (forall i, 0 <= i < zlen tbl -> omem (ta_order ts) i = true) ->
+    fa_to_tuple fs = OK tbl.
+  Proof.
+    intros HD HE Hall. unfold fa_to_tuple.
+    assert (Hin : forall i, In i (okeys (fa_items fs)) <-> In i (zrange (length tbl))).
+    { intros i. rewrite <- omem_In, in_zrange. unfold omem. rewrite (E_items _ _ HE).
+      fold (zlen tbl). destruct (omem (ta_order ts) i) eqn:Em.
+      - assert (Hr := D_range _ HD _ Em). destruct (py_index_inrange tbl i Hr) as [a ->]. tauto.
+      - split; [discriminate|]. intros Hr. rewrite (Hall _ Hr) in Em. discriminate. }
+    assert (Hlen : length (fa_items fs) = length tbl).
+    { rewrite <- (map_length fst). fold (okeys (fa_items fs)).
+      rewrite <- (zrange_length (length tbl)). apply Nat.le_antisymm.
+      - apply NoDup_incl_length; [apply (E_nodup _ _ HE)|]. intros i. apply Hin.
+      - apply NoDup_incl_length; [apply NoDup_zrange|]. intros i. apply Hin. }
+    rewrite Hlen, collect_spec; [reflexivity|].
+    intros k a Hk. rewrite (E_items _ _ HE).
+    assert (Hr : 0 <= 0 + Z.of_nat k < zlen tbl).
+    { unfold zlen. assert (k < length tbl)%nat by (apply nth_error_Some; congruence). lia. }
+    rewrite (Hall _ Hr), py_index_nonneg by lia.
+    replace (Z.to_nat (0 + Z.of_nat k)) with k by lia. exact Hk.
+  Qed.
+
+  (* ---------------------------------------------------------------- *)
+  (** ** Replay *)
+
+  Definition in_range (i : Z) : Prop := 0 <= i < zlen tbl.
+
+  Lemma found_all_args : forall l ts u ts', found_all ts l = OK (u, ts') -> ta_args ts' = ta_args ts.
+  Proof.
+    induction l as [|j r IH]; intros ts u ts' H; cbn [found_all] in H.
+    - now inversion H.
+    - destruct (found_index keq ts j) as [[[a ov] ts1]|] eqn:Ef; [|discriminate].
+      destruct (found_all ts1 r) as [[l' ts2]|] eqn:Er; [|discriminate].
+      inversion H; subst. rewrite (IH _ _ _ Er).
+      apply found_index_spec in Ef. tauto.
+  Qed.
+
+  Lemma missing_in_range ts : ta_args ts = tbl ->
+    Forall in_range (missing ts (zrange (length (ta_args ts)))).
+  Proof.
+    intros Ha. apply Forall_forall. intros i Hi. apply filter_In in Hi as [Hi _].
+    apply in_zrange in Hi. rewrite Ha in Hi. exact Hi.
+  Qed.
+
+  Lemma additional_args_found_all ts adds :
+    additional_args keq ts = OK adds ->
+    exists ts', found_all ts (missing ts (zrange (length (ta_args ts)))) = OK (adds, ts').
+  Proof.
+    unfold additional_args. fold (zrange (length (ta_args ts))).
+    rewrite additional_args_from_found_all by apply NoDup_zrange.
+    destruct (found_all ts _) as [[adds' ts']|]; [|discriminate].
+    intros H; inversion H; subst. eauto.
+  Qed.
+
+  (* the decoder never fails on in-range operands *)
+  Theorem decoder_total p idxs :
+    Forall in_range idxs ->
+    exists uses st adds,
+      found_all (toargs_init tbl p) idxs = OK (uses, st) /\ additional_args keq st = OK adds.
+  Proof.
+    intros HF. destruct (found_all_ok idxs (toargs_init tbl p) eq_refl HF) as [[uses st] H].
+    exists uses, st. assert (Ha := found_all_args _ _ _ _ H). cbn [toargs_init ta_args] in Ha.
+    destruct (found_all_ok _ st Ha (missing_in_range st Ha)) as [[adds st'] H'].
+    exists adds. split; [exact H|].
+    unfold additional_args. fold (zrange (length (ta_args st))).
+    rewrite additional_args_from_found_all by apply NoDup_zrange. now rewrite H'.
+  Qed.
+
+  (* everything the later sections need about a complete run *)
+  Lemma replay_core p idxs uses st adds :
+    0 <= p <= zlen tbl -> preset_unique p -> Forall in_range idxs ->
+    found_all (toargs_init tbl p) idxs = OK (uses, st) ->
+    additional_args keq st = OK adds ->
+    exists st' fs0 fs1 fs2,
+      found_all st (missing st (zrange (length tbl))) = OK (adds, st') /\
+      set_all (take p tbl) 0 fromargs_empty = OK fs0 /\
+      DI (toargs_init tbl p) /\ EI (toargs_init tbl p) fs0 /\
+      add_all fs0 uses = OK (idxs, fs1) /\ DI st /\ EI st fs1 /\
+      add_all fs1 adds = OK (missing st (zrange (length tbl)), fs2) /\ DI st' /\ EI st' fs2 /\
+      (forall i, in_range i -> omem (ta_order st') i = true).
+  Proof.
+    intros Hp Hu HF Hf Hadd.
+    assert (HD0 := DI_init p Hp Hu).
+    destruct (EI_preset0 p Hp Hu) as (fs0 & Hs & HE0).
+    destruct (replay_found_all _ _ _ _ _ HD0 HE0 HF Hf) as (fs1 & Hadd1 & HD1 & HE1).
+    destruct (additional_args_found_all _ _ Hadd) as (st' & Hf').
+    assert (Ha := D_args _ HD1). assert (HFm := missing_in_range st Ha). rewrite Ha in Hf', HFm.
+    destruct (replay_found_all _ _ _ _ _ HD1 HE1 HFm Hf') as (fs2 & Hadd2 & HD2 & HE2).
+    exists st', fs0, fs1, fs2. repeat (split; [assumption|]).
+    intros i Hi. apply (found_all_mem _ _ _ _ Hf').
+    destruct (omem (ta_order st) i) eqn:Em; [now left|]. right.
+    apply filter_In. split; [now apply in_zrange | now rewrite Em].
+  Qed.
+
+  (* tables with a preset prefix whose keys occur nowhere else in the table *)
+  Theorem tables_replay_preset_unique p idxs uses st adds :
+    0 <= p <= zlen tbl -> preset_unique p -> Forall in_range idxs ->
+    found_all (toargs_init tbl p) idxs = OK (uses, st) ->
+    additional_args keq st = OK adds ->
+    exists st0 st1 st2 is2,
+      set_all (take p tbl) 0 fromargs_empty = OK st0 /\
+      add_all st0 uses = OK (idxs, st1) /\
+      add_all st1 adds = OK (is2, st2) /\
+      fa_to_tuple st2 = OK tbl.
+  Proof.
+    intros Hp Hu HF Hf Hadd.
+    destruct (replay_core _ _ _ _ _ Hp Hu HF Hf Hadd)
+      as (st' & fs0 & fs1 & fs2 & _ & Hs & _ & _ & H1 & _ & _ & H2 & HD2 & HE2 & Hall).
+    exists fs0, fs1, fs2, (missing st (zrange (length tbl))). repeat (split; [assumption|]).
+    eapply to_tuple_full; eassumption.
+  Qed.
+
+  Definition dup_free : Prop :=
+    forall i j a b, in_range i -> in_range j -> i <> j -> val i = Some a -> val j = Some b ->
+                    keq a b = false.
+
+  Lemma dup_free_preset_unique p : p <= zlen tbl -> dup_free -> preset_unique p.
+  Proof.
+    intros Hp Hdf i j a b Hi Hj Hne Ha Hb. apply (Hdf i j); auto. unfold in_range. lia.
+  Qed.
+
+  (* ---------------------------------------------------------------- *)
+  (** ** The order of first use and the overrides *)
+
+  (* distinct indices in the order in which they are first found *)
+  Definition order_step (seen : list Z) (i : Z) : list Z :=
+    if zmem i seen then seen else seen ++ [i].
+  Fixpoint order_acc (seen : list Z) (l : list Z) : list Z :=
+    match l with [] => seen | i :: r => order_acc (order_step seen i) r end.
+  (* the preset indices 0..p-1 count as found, in place *)
+  Definition first_order (p : Z) (l : list Z) : list Z := order_acc (zrange (Z.to_nat p)) l.
+  (* rank of first use = position in that list *)
+  Definition rank_of (order : list Z) (i : Z) : option Z := index_of Z.eqb i order.
+  (* the override that the rank alone calls for *)
+  Definition ov_spec (order : list Z) (i : Z) : option Z :=
+    match rank_of order i with
+    | Some r => if r =? i then None else Some i
+    | None => Some i
+    end.
+
+  Fixpoint enum_from (k : Z) (l : list Z) : odict Z :=
+    match l with [] => [] | i :: r => (i, k) :: enum_from (k + 1) r end.
+
+  Lemma oget_enum_from : forall l k i,
+    oget (enum_from k l) i =
+    match index_of Z.eqb i l with Some r => Some (k + r) | None => None end.
+  Proof.
+    induction l as [|x l IH]; intros k i; cbn [enum_from oget index_of]; [reflexivity|].
+    destruct (x =? i) eqn:E1; destruct (i =? x) eqn:E2; try lia.
+    - f_equal. lia.
+    - rewrite IH. destruct (index_of Z.eqb i l); [|reflexivity]. f_equal. lia.
+  Qed.
+
+  Lemma zmem_index_of i l : zmem i l = match index_of Z.eqb i l with Some _ => true | None => false end.
+  Proof.
+    unfold zmem. induction l as [|x l IH]; cbn [existsb index_of]; [reflexivity|].
+    destruct (i =? x); [reflexivity|]. cbn [orb]. rewrite IH.
+    destruct (index_of Z.eqb i l); reflexivity.
+  Qed.
+
+  Lemma zmem_In i l : zmem i l = true <-> In i l.
+  Proof.
+    unfold zmem. rewrite existsb_exists. split.
+    - intros (x & Hx & E). assert (i = x) by lia. now subst.
+    - intros H. exists i. split; [exact H | lia].
+  Qed.
+
+  Lemma omem_enum_from l k i : omem (enum_from k l) i = zmem i l.
+  Proof.
+    unfold omem. rewrite oget_enum_from, zmem_index_of.
+    destruct (index_of Z.eqb i l); reflexivity.
+  Qed.
+
+  Lemma zlen_enum_from : forall l k, zlen (enum_from k l) = zlen l.
+  Proof.
+    unfold zlen. induction l as [|x l IH]; intros k; cbn [enum_from length]; [reflexivity|].
+    specialize (IH (k + 1)). lia.
+  Qed.
+
+  Lemma oset_enum_from : forall l k i, zmem i l = false ->
+    oset (enum_from k l) i (k + zlen l) = enum_from k (l ++ [i]).
+  Proof.
+    induction l as [|x l IH]; intros k i Hm; cbn [enum_from oset app].
+    - unfold zlen; cbn. now rewrite Z.add_0_r.
+    - unfold zmem in Hm. cbn [existsb] in Hm. apply orb_false_iff in Hm as [E Hm].
+      destruct (x =? i) eqn:E1; [lia|]. f_equal.
+      rewrite <- IH by exact Hm. f_equal. unfold zlen. cbn [length]. lia.
+  Qed.
+
+  Lemma init_order q : ta_order (toargs_init tbl q) = enum_from 0 (zrange (Z.to_nat q)).
+  Proof.
+    cbn [toargs_init ta_order]. unfold zrange. generalize (Z.to_nat q) as n.
+    assert (H : forall n s, map (fun i : Z => (i, i)) (map Z.of_nat (seq s n)) =
+                            enum_from (Z.of_nat s) (map Z.of_nat (seq s n))).
+    { induction n as [|n IH]; intros s; cbn [seq map enum_from]; [reflexivity|].
+      f_equal. rewrite IH. f_equal. lia. }
+    intros n. apply (H n O).
+  Qed.
+
+  Lemma index_of_app_in i l m :
+    zmem i l = true -> index_of Z.eqb i (l ++ m) = index_of Z.eqb i l.
+  Proof.
+    unfold zmem. induction l as [|x l IH]; cbn [existsb app index_of]; [discriminate|].
+    destruct (i =? x); [reflexivity|]. cbn [orb]. intros H. now rewrite IH.
+  Qed.
+
+  Lemma order_acc_prefix : forall l seen, exists m, order_acc seen l = seen ++ m.
+  Proof.
+    induction l as [|i r IH]; intros seen; cbn [order_acc].
+    - exists []. now rewrite app_nil_r.
+    - destruct (IH (order_step seen i)) as [m Hm]. rewrite Hm. unfold order_step.
+      destruct (zmem i seen); [eauto|]. exists ([i] ++ m). now rewrite app_assoc.
+  Qed.
+
+  Lemma rank_stable i seen l :
+    zmem i seen = true -> rank_of (order_acc seen l) i = rank_of seen i.
+  Proof.
+    intros H. destruct (order_acc_prefix l seen) as [m ->]. now apply index_of_app_in.
+  Qed.
+
+  Lemma zmem_order_step seen i j : zmem j (order_step seen i) = (i =? j) || zmem j seen.
+  Proof.
+    unfold order_step. destruct (zmem i seen) eqn:E.
+    - destruct (i =? j) eqn:E1; [|reflexivity]. assert (i = j) by lia. subst. now rewrite E.
+    - unfold zmem. rewrite existsb_app. cbn [existsb]. rewrite orb_false_r, orb_comm.
+      f_equal. apply Z.eqb_sym.
+  Qed.
+
+  Lemma in_order_acc : forall l seen j, In j (order_acc seen l) <-> In j seen \/ In j l.
+  Proof.
+    induction l as [|i r IH]; intros seen j; cbn [order_acc In]; [tauto|].
+    rewrite IH, <- !zmem_In, zmem_order_step, orb_true_iff, zmem_In. intuition lia.
+  Qed.
+
+  Lemma NoDup_order_acc : forall l seen, NoDup seen -> NoDup (order_acc seen l).
+  Proof.
+    induction l as [|i r IH]; intros seen H; cbn [order_acc]; [exact H|].
+    apply IH. unfold order_step. destruct (zmem i seen) eqn:E; [exact H|].
+    apply NoDup_app_snoc; [exact H|]. rewrite <- zmem_In. congruence.
+  Qed.
+
+  Lemma in_first_order p l j : In j (first_order p l) <-> 0 <= j < p \/ In j l.
+  Proof. unfold first_order. rewrite in_order_acc, in_zrange. intuition lia. Qed.
+
+  Lemma NoDup_first_order p l : NoDup (first_order p l).
+  Proof. apply NoDup_order_acc, NoDup_zrange. Qed.
+
+  (* one decoder step, in terms of the order list *)
+  Lemma found_index_order ts idx a ov ts1 seen :
+    ta_order ts = enum_from 0 seen ->
+    found_index keq ts idx = OK (a, ov, ts1) ->
+    ta_order ts1 = enum_from 0 (order_step seen idx) /\
+    py_index (ta_args ts) idx = Some a /\
+    ov = (if key_mem keq (ta_dups ts1) a then Some idx else ov_spec (order_step seen idx) idx).
+  Proof.
+    intros Ho H. apply found_index_spec in H. destruct H as (Ha & _ & Hord & Hov & _).
+    assert (Ho1 : ta_order ts1 = enum_from 0 (order_step seen idx)).
+    { rewrite Hord, Ho, omem_enum_from. unfold order_step.
+      destruct (zmem idx seen) eqn:E; [reflexivity|].
+      rewrite zlen_enum_from. now apply (oset_enum_from seen 0). }
+    split; [exact Ho1|]. split; [exact Ha|].
+    rewrite Hov, Ho1, oget_enum_from. unfold ov_spec, rank_of.
+    destruct (index_of Z.eqb idx (order_step seen idx)) as [r|]; cbn [negb orb Z.add].
+    - change (0 + r) with r. destruct (r =? idx); cbn [negb orb];
+        destruct (key_mem keq (ta_dups ts1) a); reflexivity.
+    - destruct (key_mem keq (ta_dups ts1) a); reflexivity.
+  Qed.
+
+  Lemma rank_order_step_final seen idx l :
+    ov_spec (order_acc (order_step seen idx) l) idx = ov_spec (order_step seen idx) idx.
+  Proof.
+    unfold ov_spec. rewrite rank_stable; [reflexivity|].
+    rewrite zmem_order_step, Z.eqb_refl. reflexivity.
+  Qed.
+
+  (* general form: an element is (tbl[i], o) where o is the rank-based override or Some i *)
+  Lemma found_all_order : forall l ts seen u ts',
+    ta_order ts = enum_from 0 seen -> ta_args ts = tbl ->
+    found_all ts l = OK (u, ts') ->
+    ta_order ts' = enum_from 0 (order_acc seen l) /\
+    Forall2 (fun i x => val i = Some (fst x) /\
+                        (snd x = ov_spec (order_acc seen l) i \/ snd x = Some i)) l u.
+  Proof.
+    induction l as [|i r IH]; intros ts seen u ts' Ho Ha H; cbn [found_all] in H.
+    - inversion H; subst. cbn [order_acc]. auto.
+    - destruct (found_index keq ts i) as [[[a ov] ts1]|] eqn:Ef; [|discriminate].
+      destruct (found_all ts1 r) as [[l' ts2]|] eqn:Er; [|discriminate].
+      inversion H; subst u ts2. clear H.
+      destruct (found_index_order _ _ _ _ _ _ Ho Ef) as (Ho1 & Hv & Hov).
+      assert (Ha1 : ta_args ts1 = tbl).
+      { apply found_index_spec in Ef. destruct Ef as (_ & -> & _). exact Ha. }
+      destruct (IH _ _ _ _ Ho1 Ha1 Er) as (Ho' & HF).
+      cbn [order_acc]. split; [exact Ho'|]. constructor; [|exact HF].
+      cbn [fst snd]. split; [now rewrite <- Ha|].
+      rewrite rank_order_step_final, Hov. destruct (key_mem keq (ta_dups ts1) a); auto.
+  Qed.
+
+  (* duplicate-free tables: no duplicate key is ever recorded *)
+  Lemma dup_free_step ts idx a ov ts1 :
+    dup_free -> DI ts -> in_range idx -> found_index keq ts idx = OK (a, ov, ts1) ->
+    ta_dups ts = [] -> ta_dups ts1 = [].
+  Proof.
+    intros Hdf HD Hr H Hd. apply found_index_spec in H.
+    destruct H as (Ha & _ & _ & _ & Hc). rewrite (D_args _ HD) in Ha.
+    destruct Hc as [[_ ->] | [(Em & first & Ek & _ & _) | (_ & _ & _ & ->)]]; auto.
+    exfalso. destruct (D_keys _ HD _ _ Ek) as (Hf & b & Hb & Hab).
+    assert (Hne : idx <> first) by (intros ->; congruence).
+    rewrite (Hdf idx first a b Hr (D_range _ HD _ Hf) Hne Ha Hb) in Hab. discriminate.
+  Qed.
+
+  Lemma found_all_order_df : forall l ts seen u ts',
+    dup_free -> DI ts -> ta_dups ts = [] -> ta_order ts = enum_from 0 seen ->
+    Forall in_range l -> found_all ts l = OK (u, ts') ->
+    ta_dups ts' = [] /\
+    Forall2 (fun i x => val i = Some (fst x) /\ snd x = ov_spec (order_acc seen l) i) l u.
+  Proof.
+    induction l as [|i r IH]; intros ts seen u ts' Hdf HD Hd Ho HF H; cbn [found_all] in H.
+    - inversion H; subst. auto.
+    - inversion_clear HF as [|? ? Hi HF'].
+      destruct (found_index keq ts i) as [[[a ov] ts1]|] eqn:Ef; [|discriminate].
+      destruct (found_all ts1 r) as [[l' ts2]|] eqn:Er; [|discriminate].
+      inversion H; subst u ts2. clear H.
+      destruct (found_index_order _ _ _ _ _ _ Ho Ef) as (Ho1 & Hv & Hov).
+      assert (Hd1 := dup_free_step _ _ _ _ _ Hdf HD Hi Ef Hd).
+      destruct (dec_step _ _ _ _ _ HD Hi Ef) as (HD1 & _).
+      destruct (IH _ _ _ _ Hdf HD1 Hd1 Ho1 HF' Er) as (Hd' & HF2).
+      split; [exact Hd'|]. cbn [order_acc]. constructor; [|exact HF2].
+      cbn [fst snd]. split; [now rewrite <- (D_args _ HD)|].
+      rewrite rank_order_step_final, Hov, Hd1. reflexivity.
+  Qed.
+
+  (* the entries that no operand uses (and that are not preset) *)
+  Definition unused (p : Z) (idxs : list Z) : list Z :=
+    filter (fun i => negb (zmem i (first_order p idxs))) (zrange (length tbl)).
+
+  Lemma in_unused p idxs i :
+    In i (unused p idxs) <-> in_range i /\ ~ (0 <= i < p) /\ ~ In i idxs.
+  Proof.
+    unfold unused, in_range, zlen. rewrite filter_In, in_zrange, negb_true_iff.
+    rewrite <- not_true_iff_false, zmem_In, in_first_order. tauto.
+  Qed.
+
+  Lemma unused_sorted p idxs : StronglySorted Z.lt (unused p idxs).
+  Proof. apply filter_sorted, zrange_sorted. Qed.
+
+  Lemma unused_NoDup p idxs : NoDup (unused p idxs).
+  Proof. apply NoDup_filter, NoDup_zrange. Qed.
+
+  Lemma order_acc_fresh : forall l seen,
+    NoDup l -> (forall i, In i l -> ~ In i seen) -> order_acc seen l = seen ++ l.
+  Proof.
+    induction l as [|i r IH]; intros seen Hnd Hf; cbn [order_acc].
+    - now rewrite app_nil_r.
+    - inversion_clear Hnd as [|? ? Hni Hnd']. unfold order_step.
+      destruct (zmem i seen) eqn:E.
+      + apply zmem_In in E. exfalso. apply (Hf i); [now left | exact E].
+      + rewrite IH; auto.
+        * now rewrite <- app_assoc.
+        * intros j Hj Hin. apply in_app_iff in Hin as [Hin|[->|[]]]; [|contradiction].
+          apply (Hf j); [now right | exact Hin].
+  Qed.
+
+  Lemma first_order_unused p idxs :
+    order_acc (first_order p idxs) (unused p idxs) = first_order p idxs ++ unused p idxs.
+  Proof.
+    apply order_acc_fresh; [apply unused_NoDup|].
+    intros i Hi. apply filter_In in Hi as [_ Hi]. rewrite negb_true_iff in Hi.
+    rewrite <- zmem_In. congruence.
+  Qed.
+
+  Lemma ov_spec_cases order i : ov_spec order i = None \/ ov_spec order i = Some i.
+  Proof. unfold ov_spec. destruct (rank_of order i) as [r|]; [destruct (r =? i)|]; auto. Qed.
+
+  (* an override is called for exactly when the rank of first use differs from the index *)
+  Lemma ov_spec_None order i : ov_spec order i = None <-> rank_of order i = Some i.
+  Proof.
+    unfold ov_spec. destruct (rank_of order i) as [r|].
+    - destruct (r =? i) eqn:E; split; intros H; try discriminate; try reflexivity.
+      + f_equal; lia.
+      + inversion H; lia.
+    - split; discriminate.
+  Qed.
+
+  Lemma ov_spec_Some order i : ov_spec order i = Some i <-> rank_of order i <> Some i.
+  Proof.
+    rewrite <- ov_spec_None. destruct (ov_spec_cases order i) as [-> | ->];
+      split; try congruence; try discriminate.
+  Qed.
+
+  Lemma missing_unused p idxs uses st :
+    found_all (toargs_init tbl p) idxs = OK (uses, st) ->
+    missing st (zrange (length tbl)) = unused p idxs.
+  Proof.
+    intros Hf. destruct (found_all_order _ _ _ _ _ (init_order p) eq_refl Hf) as (Ho & _).
+    unfold missing, unused. apply filter_ext. intros i.
+    now rewrite Ho, omem_enum_from.
+  Qed.
+
+  (* (ii): the additional args are the unused entries, in increasing order, and replaying them
+     gives those indices back *)
+  Theorem adds_exact p idxs uses st adds :
+    found_all (toargs_init tbl p) idxs = OK (uses, st) ->
+    additional_args keq st = OK adds ->
+    Forall2 (fun i x => val i = Some (fst x) /\
+               (snd x = ov_spec (first_order p idxs ++ unused p idxs) i \/ snd x = Some i))
+            (unused p idxs) adds /\
+    exists st', found_all st (unused p idxs) = OK (adds, st').
+  Proof.
+    intros Hf Hadd.
+    destruct (found_all_order _ _ _ _ _ (init_order p) eq_refl Hf) as (Ho & _).
+    assert (Ha := found_all_args _ _ _ _ Hf). cbn [toargs_init ta_args] in Ha.
+    destruct (additional_args_found_all _ _ Hadd) as (st' & Hf'). rewrite Ha in Hf'.
+    rewrite (missing_unused _ _ _ _ Hf) in Hf'.
+    destruct (found_all_order _ _ _ _ _ Ho Ha Hf') as (_ & HF).
+    fold (first_order p idxs) in HF. rewrite first_order_unused in HF. eauto.
+  Qed.
+
+  (* (i): duplicate-free tables: every override is the rank-based one *)
+  Theorem overrides_rank p idxs uses st adds :
+    0 <= p <= zlen tbl -> dup_free -> Forall in_range idxs ->
+    found_all (toargs_init tbl p) idxs = OK (uses, st) ->
+    additional_args keq st = OK adds ->
+    Forall2 (fun i x => val i = Some (fst x) /\ snd x = ov_spec (first_order p idxs) i) idxs uses /\
+    Forall2 (fun i x => val i = Some (fst x) /\
+                        snd x = ov_spec (first_order p idxs ++ unused p idxs) i)
+            (unused p idxs) adds.
+  Proof.
+    intros Hp Hdf HF Hf Hadd.
+    assert (Hu := dup_free_preset_unique p (proj2 Hp) Hdf).
+    assert (HD0 := DI_init p Hp Hu).
+    destruct (found_all_order_df _ _ _ _ _ Hdf HD0 eq_refl (init_order p) HF Hf) as (Hd & HF1).
+    split; [exact HF1|].
+    destruct (found_all_order _ _ _ _ _ (init_order p) eq_refl Hf) as (Ho & _).
+    destruct (adds_exact _ _ _ _ _ Hf Hadd) as (_ & st' & Hf').
+    destruct (replay_core _ _ _ _ _ Hp Hu HF Hf Hadd)
+      as (_ & _ & _ & _ & _ & _ & _ & _ & _ & HD1 & _).
+    assert (HFu : Forall in_range (unused p idxs)).
+    { apply Forall_forall. intros i Hi. now apply in_unused in Hi. }
+    destruct (found_all_order_df _ _ _ _ _ Hdf HD1 Hd Ho HFu Hf') as (_ & HF2).
+    fold (first_order p idxs) in HF2. rewrite first_order_unused in HF2. exact HF2.
+  Qed.
+
+  Lemma index_of_zrange_gen n i : 0 <= i < Z.of_nat n -> index_of Z.eqb i (zrange n) = Some i.
+  Proof.
+    intros Hi. unfold zrange.
+    assert (H : forall n s, Z.of_nat s <= i < Z.of_nat s + Z.of_nat n ->
+              index_of Z.eqb i (map Z.of_nat (seq s n)) = Some (i - Z.of_nat s)).
+    { clear n Hi. induction n as [|n IH]; intros s Hs; [lia|]. cbn [seq map index_of].
+      destruct (i =? Z.of_nat s) eqn:E.
+      - f_equal. lia.
+      - rewrite IH by lia. f_equal. lia. }
+    rewrite (H n O) by lia. f_equal. lia.
+  Qed.
+
+  Lemma index_of_zrange n i : in_range i -> n = length tbl -> rank_of (zrange n) i = Some i.
+  Proof. intros Hi ->. apply index_of_zrange_gen. exact Hi. Qed.
+
+  (* (iii): first-use order 0,1,..,n-1 on a duplicate-free table: no override, no additional arg *)
+  Theorem canonical_no_override p idxs uses st adds :
+    0 <= p <= zlen tbl -> dup_free -> Forall in_range idxs ->
+    first_order p idxs = zrange (length tbl) ->
+    found_all (toargs_init tbl p) idxs = OK (uses, st) ->
+    additional_args keq st = OK adds ->
+    Forall (fun x => snd x = None) uses /\ adds = [].
+  Proof.
+    intros Hp Hdf HF Hfo Hf Hadd.
+    destruct (overrides_rank _ _ _ _ _ Hp Hdf HF Hf Hadd) as (H1 & H2).
+    assert (Hun : unused p idxs = []).
+    { unfold unused. rewrite Hfo. apply filter_nil.
+      intros i Hi. apply zmem_In in Hi. now rewrite Hi. }
+    split.
+    - rewrite Hfo in H1. clear H2 Hf Hun Hfo. induction H1 as [|i x l u (_ & Hx) _ IH]; constructor.
+      + rewrite Hx. apply ov_spec_None. apply index_of_zrange; [|reflexivity].
+        now inversion HF.
+      + apply IH. now inversion HF.
+    - rewrite Hun in H2. now inversion H2.
+  Qed.
+
+  (* ---------------------------------------------------------------- *)
+  (** ** (iv) Every override is necessary *)
+
+  (* history invariant: [u] is the list of elements emitted so far *)
+  Record HI (ts : toargs T) (fs : fromargs T) (u : list (T * option Z)) : Prop := {
+    H_rank : forall i, omem (ta_order ts) i = true -> oget (ta_order ts) i <> Some i ->
+             exists a, In (a, Some i) u;
+    H_ptr : forall i a, omem (ta_order ts) i = true -> val i = Some a ->
+            key_mem keq (ta_dups ts) a = true -> (forall b, ~ In (b, Some i) u) ->
+            key_lookup keq (fa_index fs) a <> Some i
+  }.
+
+  Lemma HI_init p fs : HI (toargs_init tbl p) fs [].
+  Proof.
+    constructor.
+    - intros i Hi Hne. exfalso. apply Hne. rewrite omem_init in Hi.
+      rewrite init_order, oget_enum_from, index_of_zrange_gen by lia. reflexivity.
+    - cbn. discriminate.
+  Qed.
+
+  Lemma fa_add_cases fs a ov j fs1 :
+    fa_add keq fs a ov = OK (j, fs1) ->
+    (ov = None /\ fs1 = fs /\ key_lookup keq (fa_index fs) a = Some j) \/
+    (fa_index fs1 = key_set keq (fa_index fs) a j /\
+     (ov = Some j \/
+      (ov = None /\ key_lookup keq (fa_index fs) a = None /\ j = zlen (fa_items fs)))).
+  Proof.
+    unfold fa_add, fa_setitem. destruct ov as [i|].
+    - destruct (match oget (fa_items fs) i with Some old => negb (keq old a) | None => false end);
+        [discriminate|].
+      intros H; inversion H; subst. right. cbn [fa_index]. auto.
+    - destruct (key_lookup keq (fa_index fs) a) as [i|] eqn:Ek.
+      + intros H; inversion H; subst. left. auto.
+      + destruct (match oget (fa_items fs) (zlen (fa_items fs)) with
+                  | Some old => negb (keq old a) | None => false end); [discriminate|].
+        intros H; inversion H; subst. right. cbn [fa_index]. auto.
+  Qed.
+
+  Lemma nec_step ts fs u idx a ov ts1 fs1 :
+    DI ts -> EI ts fs -> HI ts fs u -> in_range idx ->
+    found_index keq ts idx = OK (a, ov, ts1) ->
+    fa_add keq fs a ov = OK (idx, fs1) ->
+    HI ts1 fs1 (u ++ [(a, ov)]) /\
+    (ov = Some idx -> (forall b, ~ In (b, Some idx) u) ->
+     forall j fs', fa_add keq fs a None = OK (j, fs') -> j <> idx).
+  Proof.
+    intros HD HE HH Hr Hf Hfa.
+    destruct (dec_step _ _ _ _ _ HD Hr Hf) as (HD1 & HS).
+    apply found_index_spec in Hf. destruct Hf as (Ha & Hargs & Hord & Hov & Hc).
+    assert (Hval := S_val _ _ _ _ HS).
+    split.
+    - constructor.
+      + intros i Hi Hne. destruct (Z.eq_dec i idx) as [->|Hni].
+        * exists a. apply in_or_app. right. left. f_equal.
+          destruct (omem_oget _ _ Hi) as [r Hr']. rewrite Hr' in Hov, Hne.
+          assert (r <> idx) by congruence.
+          destruct (r =? idx) eqn:E; [lia|]. exact Hov.
+        * rewrite (S_mem _ _ _ _ HS) in Hi. destruct (idx =? i) eqn:E; [lia|]. cbn [orb] in Hi.
+          assert (Hog : oget (ta_order ts1) i = oget (ta_order ts) i).
+          { rewrite Hord. destruct (omem (ta_order ts) idx); [reflexivity|].
+            now rewrite oget_oset, E. }
+          rewrite Hog in Hne. destruct (H_rank _ _ _ HH i Hi Hne) as [a' Ha'].
+          exists a'. apply in_or_app. now left.
+      + intros i ai Hi Hai Hdup Hno.
+        destruct (keq ai a) eqn:Eka.
+        * (* same key as the current element: it carries an override *)
+          assert (Hda : key_mem keq (ta_dups ts1) a = true).
+          { now rewrite <- (key_mem_ext keq keq_sym keq_trans _ _ _ Eka). }
+          assert (Hov' : ov = Some idx).
+          { rewrite Hov, Hda, orb_true_r. reflexivity. }
+          destruct (fa_add_cases _ _ _ _ _ Hfa) as [(Hn & _) | (Hidx & _)]; [congruence|].
+          rewrite Hidx, key_lookup_key_set, Eka by assumption.
+          intros Hc'. inversion Hc'; subst i.
+          apply (Hno a). apply in_or_app. right. left. now rewrite Hov'.
+        * assert (Hni : idx <> i).
+          { intros ->. rewrite Hval in Hai. inversion Hai; subst. now rewrite keq_refl in Eka. }
+          assert (Hlk : key_lookup keq (fa_index fs1) ai = key_lookup keq (fa_index fs) ai).
+          { destruct (fa_add_cases _ _ _ _ _ Hfa) as [(_ & -> & _) | (Hidx & _)]; [reflexivity|].
+            now rewrite Hidx, key_lookup_key_set, Eka by assumption. }
+          rewrite Hlk. rewrite (S_mem _ _ _ _ HS) in Hi.
+          destruct (idx =? i) eqn:E; [lia|]. cbn [orb] in Hi.
+          apply (H_ptr _ _ _ HH i ai Hi Hai).
+          -- destruct (S_dnew _ _ _ _ HS _ Hdup) as [H1|H1]; [exact H1 | congruence].
+          -- intros b Hb. apply (Hno b). apply in_or_app. now left.
+    - intros Hovs Hno j fs' Hadd. cbn [fa_add] in Hadd.
+      destruct (key_lookup keq (fa_index fs) a) as [j'|] eqn:Ej.
+      + inversion Hadd; subst j' fs'. destruct (E_idx _ _ HE _ _ Ej) as (Hj & _).
+        intros ->.
+        assert (ts1 = ts).
+        { destruct Hc as [[_ ->] | [(Em' & _) | (Em' & _)]]; congruence. }
+        subst ts1. destruct (omem_oget _ _ Hj) as [r Hr'].
+        destruct (Z.eq_dec r idx) as [->|Hne].
+        * rewrite Hr', Z.eqb_refl in Hov. cbn [negb orb] in Hov.
+          destruct (key_mem keq (ta_dups ts) a) eqn:Ed; [|congruence].
+          apply (H_ptr _ _ _ HH idx a Hj Hval Ed Hno Ej).
+        * destruct (H_rank _ _ _ HH idx Hj) as [a' Ha']; [congruence|].
+          apply (Hno a' Ha').
+      + destruct (fa_setitem keq fs (zlen (fa_items fs)) a) as [fs''|]; [|discriminate].
+        inversion Hadd; subst j fs'. rewrite (E_len _ _ HE). intros Hlen.
+        destruct Hc as [[Em _] | [(Em & first & Ek & _ & _) | (Em & Ek & _ & Hd)]].
+        * destruct (E_idx0 _ _ HE idx a Em Hval) as [j' Hj']. congruence.
+        * destruct (D_keys _ HD _ _ Ek) as (Hfi & b & Hb & Hab).
+          destruct (E_idx0 _ _ HE first b Hfi Hb) as [j' Hj'].
+          rewrite <- (key_lookup_ext keq keq_sym keq_trans _ _ _ Hab) in Hj'. congruence.
+        * rewrite Em in Hord. rewrite Hord, oget_oset, Z.eqb_refl, Hlen, Z.eqb_refl, Hd in Hov.
+          cbn [negb orb] in Hov.
+          destruct (key_mem keq (ta_dups ts) a) eqn:Ed; [|congruence].
+          destruct (D_dupk _ HD _ Ed) as [f Hf']. congruence.
+  Qed.
+
+  Lemma nec_run : forall l ts fs u0 us ts',
+    DI ts -> EI ts fs -> HI ts fs u0 -> Forall in_range l ->
+    found_all ts l = OK (us, ts') ->
+    forall u1 a i u2, us = u1 ++ (a, Some i) :: u2 ->
+    (forall b, ~ In (b, Some i) (u0 ++ u1)) ->
+    exists l1 fs1, add_all fs u1 = OK (l1, fs1) /\
+      forall j fs', fa_add keq fs1 a None = OK (j, fs') -> j <> i.
+  Proof.
+    induction l as [|idx r IH]; intros ts fs u0 us ts' HD HE HH HF H u1 a i u2 Hus Hno;
+      cbn [found_all] in H.
+    - inversion H; subst. destruct u1; discriminate.
+    - inversion_clear HF as [|? ? Hi HF'].
+      destruct (found_index keq ts idx) as [[[a0 ov] ts1]|] eqn:Ef; [|discriminate].
+      destruct (found_all ts1 r) as [[l' ts2]|] eqn:Er; [|discriminate].
+      injection H as Hus' Hts. subst ts2. rewrite <- Hus' in Hus. clear Hus'.
+      destruct (replay_step _ _ _ _ _ _ HD HE Hi Ef) as (fs1 & Hadd & HD1 & HE1).
+      destruct (nec_step _ _ _ _ _ _ _ _ HD HE HH Hi Ef Hadd) as (HH1 & Hnec).
+      destruct u1 as [|x u1'].
+      + cbn [app] in Hus. inversion Hus; subst a0 ov l'.
+        assert (i = idx).
+        { cbn [fa_add] in Hadd. destruct (fa_setitem keq fs i a); [|discriminate].
+          now inversion Hadd. }
+        subst i. exists [], fs. cbn [add_all]. split; [reflexivity|].
+        apply Hnec; [reflexivity|]. now rewrite app_nil_r in Hno.
+      + cbn [app] in Hus. inversion Hus; subst x l'.
+        destruct (IH _ _ (u0 ++ [(a0, ov)]) _ _ HD1 HE1 HH1 HF' Er u1' a i u2 eq_refl)
+          as (l1 & fs1' & Hall & Hn).
+        { intros b. rewrite <- app_assoc. apply Hno. }
+        exists (idx :: l1), fs1'. cbn [add_all]. rewrite Hadd, Hall. auto.
+  Qed.
+
+  Lemma found_all_app : forall l1 l2 ts u1 ts1 u2 ts2,
+    found_all ts l1 = OK (u1, ts1) -> found_all ts1 l2 = OK (u2, ts2) ->
+    found_all ts (l1 ++ l2) = OK (u1 ++ u2, ts2).
+  Proof.
+    induction l1 as [|i r IH]; intros l2 ts u1 ts1 u2 ts2 H1 H2; cbn [found_all app] in *.
+    - inversion H1; subst. exact H2.
+    - destruct (found_index keq ts i) as [[[a ov] ts']|]; [|discriminate].
+      destruct (found_all ts' r) as [[l' ts'']|] eqn:Er; [|discriminate].
+      inversion H1; subst. rewrite (IH _ _ _ _ _ _ Er H2). reflexivity.
+  Qed.
+
+  Lemma add_all_app : forall u1 u2 fs,
+    add_all fs (u1 ++ u2) =
+    match add_all fs u1 with
+    | OK (l1, fs1) => match add_all fs1 u2 with
+                      | OK (l2, fs2) => OK (l1 ++ l2, fs2) | Err e => Err e end
+    | Err e => Err e
+    end.
+  Proof.
+    induction u1 as [|[a ov] r IH]; intros u2 fs; cbn [add_all app].
+    - destruct (add_all fs u2) as [[l2 fs2]|]; reflexivity.
+    - destruct (fa_add keq fs a ov) as [[i fs1]|]; [|reflexivity].
+      rewrite IH. destruct (add_all fs1 r) as [[l1 fs1']|]; [|reflexivity].
+      destruct (add_all fs1' u2) as [[l2 fs2]|]; reflexivity.
+  Qed.
+
+  (* at the first element that carries [Some i], the encoder without the override either fails
+     or returns an index different from [i] *)
+  Theorem override_necessary p idxs uses st adds st0 u1 a i u2 :
+    0 <= p <= zlen tbl -> preset_unique p -> Forall in_range idxs ->
+    found_all (toargs_init tbl p) idxs = OK (uses, st) ->
+    additional_args keq st = OK adds ->
+    set_all (take p tbl) 0 fromargs_empty = OK st0 ->
+    uses ++ adds = u1 ++ (a, Some i) :: u2 ->
+    (forall b, ~ In (b, Some i) u1) ->
+    exists l1 fs1, add_all st0 u1 = OK (l1, fs1) /\
+      forall j fs', fa_add keq fs1 a None = OK (j, fs') -> j <> i.
+  Proof.
+    intros Hp Hu HF Hf Hadd Hs Hus Hno.
+    destruct (replay_core _ _ _ _ _ Hp Hu HF Hf Hadd)
+      as (st' & fs0 & fs1 & fs2 & Hf' & Hs' & HD0 & HE0 & _ & HD1 & _).
+    assert (fs0 = st0) by congruence. subst fs0.
+    assert (Hall := found_all_app _ _ _ _ _ _ _ Hf Hf').
+    assert (HFall : Forall in_range (idxs ++ missing st (zrange (length tbl)))).
+    { apply Forall_app. split; [exact HF|].
+      rewrite <- (D_args _ HD1). apply missing_in_range. apply (D_args _ HD1). }
+    exact (nec_run _ _ _ [] _ _ HD0 HE0 (HI_init p st0) HFall Hall u1 a i u2 Hus Hno).
   Qed.
 
   End WithTable.
